@@ -72,6 +72,8 @@ class Packet(Frame):
             self._lifespan: bool | td = pkt_lifespan(self) or False
         except AssertionError as err:  # e.g. from Frame._has_array
             raise exc.PacketInvalid(f"Bad frame: invalid array: {err}") from err
+        except ValueError as err:  # e.g. a 3220 too short to hold its data-id
+            raise exc.PacketInvalid(f"Bad frame: invalid payload: {err}") from err
 
         self._validate(strict_checking=False)
 
